@@ -60,15 +60,19 @@ func BuildWorlds(cfg Config, prop string, nFix, nSyn, rejectPct int, rich bool, 
 			case 0:
 				opts.SetupName = "my.setup.go"
 				opts.ForceHooks = true
+				opts.Surroundings = 3
 			case 1:
 				opts.Nested = true
 				opts.NoSiblings = true
 				opts.Big = 2
+				opts.Surroundings = 1
+				opts.ThirdParty = true
 			case 2:
 				opts.SetupName = "user.gorm.go"
 				opts.DotGoDir = true
 				opts.Competing = true
 				opts.Big = 1
+				opts.Surroundings = 2
 			case 3:
 				opts.SetupName = "catalog.go"
 				opts.Competing = true
